@@ -295,3 +295,5 @@ func vUpdate6(prefix *bgp.IPAddrPrefix, withdraw bool, aspath []uint32) *bgp.BGP
 }
 
 type uuidT = uuid.UUID
+
+type netipAddr = netip.Addr
